@@ -100,7 +100,13 @@ func VH_RT_lzma() {
 // LZMA2 writer: call histories over {Write(p), Flush, Close}.
 func VH_RT_w2() {
 	variant := vConcretize(int(vNondetU8("variant")) % 4)
-	vAssume(variant%vShards() == vShardIdx()%4)
+	// quick tier: HashTable4 with default properties and BinaryTree with lc0 lp4 pb4; thorough: all four combinations
+	if !vThorough() {
+		vAssume(variant == 0 || variant == 3)
+		vAssume(vShards() == 1 || (variant == 3) == (vShardIdx()%2 == 1))
+	} else {
+		vAssume(variant%vShards() == vShardIdx()%4)
+	}
 	cfg := Writer2Config{DictCap: 4096, BufSize: 4096}
 	if variant&1 != 0 {
 		cfg.Matcher = BinaryTree
@@ -122,7 +128,14 @@ func VH_RT_w2() {
 		// 0 small write, 1 incompressible write (stored raw), 2 compressible run (stored compressed), 3 Flush, 4 Close
 		op := vConcretize(int(vNondetU8("op")) % 5)
 		if i == 0 {
-			vAssume(vShards() <= 4 || op == vShardIdx()/4)
+			if vThorough() {
+				vAssume(vShards() <= 4 || op == vShardIdx()/4)
+			} else {
+				vAssume(vShards() <= 2 || op == (vShardIdx()/2)%5)
+			}
+		}
+		if i == 1 && !vThorough() {
+			vAssume(vShards() <= 10 || op%2 == vShardIdx()/10)
 		}
 		before := sink.Len()
 		switch op {
